@@ -87,7 +87,7 @@ def render(kind, seq, r):
 def max_dev(tier, L):
     """None = full product of the rendering dimensions."""
     if tier == 'quick':
-        return {1: None, 2: 2}.get(L, 2)
+        return {1: 3, 2: 2}.get(L, 2)
     return {1: None, 2: None, 3: 3}.get(L, 2)
 
 
